@@ -1404,6 +1404,7 @@ func (g *Gen) execMapUpdate(x *ssa.MapUpdate, st *State) {
 	ds, vs := g.mapSorts(t)
 	hd, hv := g.heapGet(st, dn, ds), g.heapGet(st, vn, vs)
 	g.oblige("nonnil", "C", "assignment to entry in nil map", st.reach, sNot(sEq(m.T, "0")), true)
+	g.checkMapStoreRules(x, t, m, k, v, hd, hv, st)
 	nd := g.defineRaw("h", ds, fmt.Sprintf("(store %[1]s %[2]s (store (select %[1]s %[2]s) %[3]s true))", hd, m.T, k.T))
 	st.heap[dn] = nd
 	st.heap[vn] = g.defineRaw("h", vs, fmt.Sprintf("(store %[1]s %[2]s (store (select %[1]s %[2]s) %[3]s %[4]s))", hv, m.T, k.T, v.T))
@@ -1413,6 +1414,45 @@ func (g *Gen) execMapUpdate(x *ssa.MapUpdate, st *State) {
 	_ = ml
 	mks := g.sortOf(t.Key())
 	g.assume(st.reach, fmt.Sprintf("(= %s (ite %s %s (+ %s 1)))", mapLenTerm(mks, nd, m.T), was, mapLenTerm(mks, hd, m.T), mapLenTerm(mks, hd, m.T)))
+}
+
+// checkMapStoreRules: protocol rules on map assignments, written `store map[K]V` (the map's type without package
+// qualifiers) or `store <source text of the map expression>`. In the rule: key, val (what is written), had (the key
+// was present before), prev (the value it had; the zero value if it was absent).
+func (g *Gen) checkMapStoreRules(x *ssa.MapUpdate, t *types.Map, m, k, v Val, hd, hv string, st *State) {
+	if g.spec == nil {
+		return
+	}
+	tn := types.TypeString(x.Map.Type(), func(p *types.Package) string { return "" })
+	txt := g.textOf(x.Map)
+	for _, r := range g.spec.Calls {
+		if !r.IsStore || (r.Pattern != tn && r.Pattern != txt) {
+			continue
+		}
+		r.Matched++
+		env := g.specEnv(st, g.entry)
+		env.useLocals = true
+		kv, vv := k, v
+		kv.G, vv.G = t.Key(), t.Elem()
+		env.vars["key"] = kv
+		env.vars["val"] = vv
+		had := sAnd(sNot(sEq(m.T, "0")), fmt.Sprintf("(select (select %s %s) %s)", hd, m.T, k.T))
+		env.vars["had"] = Val{T: had, S: sBool, G: types.Typ[types.Bool]}
+		ev := g.sortOf(t.Elem())
+		env.vars["prev"] = Val{T: sIte(had, fmt.Sprintf("(select (select %s %s) %s)", hv, m.T, k.T), g.zero(t.Elem()).T), S: ev, G: t.Elem()}
+		for _, cl := range r.Requires {
+			g.oblige(cl.Label, "B", fmt.Sprintf("at assignment to %s[...]: %s", txt, cl.Src), st.reach, env.evalBool(cl.E), false)
+		}
+		for _, s := range r.Sets {
+			old, ok := st.ghosts[s.Var]
+			if !ok {
+				g.errorf("set of undeclared ghost %s", s.Var)
+				continue
+			}
+			nv := g.coerce(env.eval(s.E), old.S, old.G)
+			st.ghosts[s.Var] = Val{T: g.define("gh", old.S, nv.T), S: old.S, G: old.G}
+		}
+	}
 }
 
 // ---------------------------------------------------------------- interfaces
@@ -1473,6 +1513,10 @@ func (g *Gen) execTypeAssert(x *ssa.TypeAssert, st *State) {
 		g.declareFun(box, fmt.Sprintf("(%s) Int", s.SMT()))
 		g.declareFun(unbox, fmt.Sprintf("(Int) %s", s.SMT()))
 		val = Val{T: fmt.Sprintf("(%s (if.val %s))", unbox, v.T), S: s, G: x.AssertedType}
+		// an interface value of this dynamic type carries the box of its payload: boxing what was unboxed gives
+		// the same interface value again (without this, `e.(*T)` stored back into an interface field is not equal
+		// to e)
+		g.assume(st.reach, sImp(okT, fmt.Sprintf("(= (%s (%s (if.val %s))) (if.val %s))", box, unbox, v.T, v.T)))
 	}
 	if x.CommaOk {
 		val.T = sIte(okT, val.T, g.zero(x.AssertedType).T)
